@@ -309,8 +309,9 @@ _SETTER_CALLS = ("ObsTime.setPrintFormat(", "ObsTime.setReadFormat(")
 
 
 class Interrupter:
-    def __init__(self, plan):
+    def __init__(self, plan, traced=None):
         self.plan = plan
+        self.traced = traced
 
     @staticmethod
     def _eligible(frame):
@@ -340,6 +341,8 @@ class Interrupter:
 
     def _global(self, frame, event, arg):
         fn = frame.f_code.co_filename
+        if self.traced is not None:
+            return self._local if fn.endswith(self.traced) else None
         if fn.endswith(_TRACED[1]) or _TRACED[0] in fn:
             return self._local
         return None
